@@ -9,7 +9,7 @@ Open Scope N_scope.
 
 Section Sched.
 Variable strf : N -> N -> comp.
-Variable rtm : N -> N.
+Variable rtm : N -> N -> N.
 Variable c : cfg.
 Hypothesis strf_nonempty : forall k t, strf k t <> [].
 Variable start : N.
@@ -158,7 +158,7 @@ Qed.
 
 (* the constructor establishes the invariant (live file empty) *)
 Definition INIT_ok : Prop :=
-  let n := init_tp rtm start in start < n /\ pt n /\ (forall g, pt g -> start < g -> n <= g).
+  let n := init_tp rtm c start in start < n /\ pt n /\ (forall g, pt g -> start < g -> n <= g).
 
 Lemma construct_tinv : forall wm rm d0, INIT_ok -> clean c d0 -> (wm = false -> fs_content lp d0 = []) ->
   TInv start (construct strf rtm c wm rm start d0).
@@ -167,7 +167,7 @@ Proof.
   assert (OK0 : wm = false -> c_limit c <> 0 -> ok_size c (fs_content lp d0)).
   { intros W _. rewrite (E0 W). apply ok_size_nil. }
   destruct (construct_clean_full strf rtm c wm rm start d0 CL OK0) as [HF DQ].
-  assert (NRT : nrt (construct strf rtm c wm rm start d0) = init_tp rtm start).
+  assert (NRT : nrt (construct strf rtm c wm rm start d0) = init_tp rtm c start).
   { rewrite construct_state. cbn [nrt]. destruct (c_freq c); auto. contradiction. }
   assert (LV : fs_content lp (fs (construct strf rtm c wm rm start d0)) = []).
   { rewrite construct_state. cbn zeta. cbn [fs]. unfold fs_content at 1. rewrite fs_get_open_same.
@@ -204,7 +204,7 @@ End Sched.
 
 (* ---------- the premises NA_ok / INIT_ok discharged ---------- *)
 Section Grids.
-Variable rtm : N -> N.
+Variable rtm : N -> N -> N.
 Variable c : cfg.
 Variable start : N.
 Hypothesis Hpre : c_prefix c = false.
@@ -212,7 +212,7 @@ Hypothesis Hpre : c_prefix c = false.
 Lemma NS_pos : 0 < NS. Proof. reflexivity. Qed.
 
 (* hourly / minutely: the schedule is P0 + j * period *)
-Definition grid_pt (g : N) : Prop := exists j, g = init_tp rtm start + j * period c.
+Definition grid_pt (g : N) : Prop := exists j, g = init_tp rtm c start + j * period c.
 
 Lemma advance_spec : forall n ts, 0 < period c -> n <= ts ->
   let a := advance c n ts in
@@ -246,23 +246,32 @@ Proof.
   - exists (j + q + 1). rewrite A2, Ej. lia.
   - intros g [k Ek] Hg. rewrite Ek in *. rewrite Ej in *.
     destruct (N.le_gt_cases j k) as [X|X].
-    + replace (init_tp rtm start + k * period c) with (init_tp rtm start + j * period c + (k - j) * period c) in * by nia.
+    + replace (init_tp rtm c start + k * period c) with (init_tp rtm c start + j * period c + (k - j) * period c) in * by nia.
       apply A3. exact Hg.
     + exfalso. assert (k * period c <= j * period c) by (apply N.mul_le_mono_r; lia). lia.
 Qed.
 
-Lemma init_tp_later : forall t, t / NS < rtm (t / NS) -> t < init_tp rtm t.
+(* hourly / minutely (and daily before the C15-daily-dst fix): one mktime, then + 24 h when it is not ahead *)
+Lemma init_tp_plain : dst_fixed c = false -> forall t,
+  init_tp rtm c t = (if t / NS <? rtm 0 (t / NS) then rtm 0 (t / NS) else rtm 0 (t / NS) + 86400) * NS.
+Proof. intros E t. unfold init_tp. rewrite E. reflexivity. Qed.
+
+Lemma not_daily_plain : (c_freq c = FHourly \/ c_freq c = FMinutely) -> dst_fixed c = false.
+Proof. intros [E|E]; unfold dst_fixed, is_daily; rewrite E; reflexivity. Qed.
+
+Lemma init_tp_later : dst_fixed c = false -> forall t, t / NS < rtm 0 (t / NS) -> t < init_tp rtm c t.
 Proof.
-  intros t H. unfold init_tp. apply N.ltb_lt in H. rewrite H. apply N.ltb_lt in H.
+  intros DF t H. rewrite init_tp_plain by auto. apply N.ltb_lt in H. rewrite H. apply N.ltb_lt in H.
   pose proof (N.div_mod t NS ltac:(unfold NS; lia)) as DM.
   pose proof (N.mod_lt t NS ltac:(unfold NS; lia)) as ML.
   nia.
 Qed.
 
-Lemma INIT_hourly_minutely : start / NS < rtm (start / NS) -> INIT_ok rtm start grid_pt.
+Lemma INIT_hourly_minutely : (c_freq c = FHourly \/ c_freq c = FMinutely) ->
+  start / NS < rtm 0 (start / NS) -> INIT_ok rtm c start grid_pt.
 Proof.
-  intro H. unfold INIT_ok. cbn zeta. repeat split.
-  - apply init_tp_later; auto.
+  intros Hf H. unfold INIT_ok. cbn zeta. repeat split.
+  - apply init_tp_later; auto. apply not_daily_plain; auto.
   - exists 0. lia.
   - intros g [j Ej] _. lia.
 Qed.
@@ -270,23 +279,87 @@ Qed.
 (* daily: the stated hypothesis is the grid property of the libc-derived next-point function *)
 Variable is_pt : N -> Prop.     (* "g is an instant HH:MM:00 of the sink's zone" *)
 Definition grid_property : Prop :=
-  forall t, start <= t -> t < init_tp rtm t /\ is_pt (init_tp rtm t) /\
-                          (forall g, is_pt g -> t < g -> init_tp rtm t <= g).
+  forall t, start <= t -> t < init_tp rtm c t /\ is_pt (init_tp rtm c t) /\
+                          (forall g, is_pt g -> t < g -> init_tp rtm c t <= g).
 
 Lemma NA_daily : c_freq c = FDaily -> grid_property -> NA_ok rtm c start is_pt.
 Proof.
   intros Hf HG ts s _ H1 H2. unfold next_after. rewrite Hpre, Hf. apply HG; lia.
 Qed.
 
-Lemma INIT_daily : grid_property -> INIT_ok rtm start is_pt.
+Lemma INIT_daily : grid_property -> INIT_ok rtm c start is_pt.
 Proof. intro HG. unfold INIT_ok. apply HG; lia. Qed.
 
 End Grids.
 
+(* ---------- daily rotation, the repaired code (c_plus24 = false), local time ----------
+   _calculate_initial_rotation_tp asks mktime for HH:MM:00 of the day of "now" with tm_isdst = -1 and, when
+   that instant is not ahead, for HH:MM:00 of the next day (tm_mday + 1, tm_isdst = -1).  libc is described
+   by the local calendar: [day t] = the local day (number) of instant t, [at_hm d] = the instant mktime
+   returns for HH:MM:00 of local day d.  Premises on libc only: local days do not go backwards in time;
+   the instant returned for day d lies in day d; the two oracle calls are [at_hm] of today / tomorrow.
+   No premise about DST: a local day may have 23, 24, 25 ... hours.  Conclusion: the grid property for
+   the points  { at_hm d }  - the premise of NA_daily / INIT_daily. *)
+Section DailyFixed.
+Variable rtm : N -> N -> N.
+Variable c : cfg.
+Variable start : N.
+Hypothesis Hdaily : c_freq c = FDaily.
+Hypothesis Hfix : c_plus24 c = false.
+Hypothesis Hloc : c_gmt c = false.
+Variable day : N -> N.
+Variable at_hm : N -> N.
+Hypothesis day_mono : forall t1 t2, t1 <= t2 -> day t1 <= day t2.
+Hypothesis day_at : forall d, day (at_hm d) = d.
+Hypothesis rtm_today : forall t, start / NS <= t -> rtm 1 t = at_hm (day t).
+Hypothesis rtm_tomorrow : forall t, start / NS <= t -> rtm 2 t = at_hm (day t + 1).
+
+Definition hm_pt (g : N) : Prop := exists d, g = at_hm d * NS.
+
+Lemma dst_fixed_true : dst_fixed c = true.
+Proof. unfold dst_fixed, is_daily. rewrite Hdaily, Hfix. reflexivity. Qed.
+
+Lemma at_hm_mono : forall d1 d2, at_hm d1 <= at_hm d2 -> d1 <= d2.
+Proof. intros d1 d2 H. rewrite <- (day_at d1), <- (day_at d2). apply day_mono; auto. Qed.
+
+Lemma daily_grid_fixed : grid_property rtm c start hm_pt.
+Proof.
+  intros t Hst. unfold init_tp. rewrite dst_fixed_true, Hloc.
+  pose proof (N.div_mod t NS ltac:(unfold NS; lia)) as DM.
+  pose proof (N.mod_lt t NS ltac:(unfold NS; lia)) as ML.
+  assert (NSv : NS = 1000000000) by reflexivity.
+  assert (Hnow : start / NS <= t / NS) by (apply N.div_le_mono; [unfold NS; lia | auto]).
+  set (now := t / NS) in *. set (fr := t mod NS) in *.
+  rewrite (rtm_today now Hnow), (rtm_tomorrow now Hnow).
+  (* an HH:MM instant after t is after now (in seconds) *)
+  assert (AFTER : forall d, t < at_hm d * NS -> now < at_hm d).
+  { intros d H. destruct (N.lt_ge_cases now (at_hm d)) as [X|X]; auto. exfalso. nia. }
+  assert (DAYLE : forall d, now < at_hm d -> day now <= d).
+  { intros d H. rewrite <- (day_at d). apply day_mono. lia. }
+  destruct (now <? at_hm (day now)) eqn:C.
+  - apply N.ltb_lt in C. split; [nia|]. split; [exists (day now); reflexivity|].
+    intros g [d Eg] Hg. subst g. specialize (AFTER d Hg). specialize (DAYLE d AFTER).
+    destruct (N.le_gt_cases (at_hm (day now)) (at_hm d)) as [X|X]; [nia|]. exfalso.
+    assert (d <= day now) by (apply at_hm_mono; lia).
+    assert (d = day now) by lia. subst d. lia.
+  - apply N.ltb_ge in C.
+    assert (NX : now < at_hm (day now + 1)).
+    { destruct (N.lt_ge_cases now (at_hm (day now + 1))) as [X|X]; auto. exfalso.
+      pose proof (day_mono _ _ X) as Y. rewrite day_at in Y. lia. }
+    apply N.ltb_lt in NX. rewrite NX. apply N.ltb_lt in NX.
+    split; [nia|]. split; [exists (day now + 1); reflexivity|].
+    intros g [d Eg] Hg. subst g. specialize (AFTER d Hg). specialize (DAYLE d AFTER).
+    destruct (N.le_gt_cases (at_hm (day now + 1)) (at_hm d)) as [X|X]; [nia|]. exfalso.
+    assert (d <= day now + 1) by (apply at_hm_mono; lia).
+    assert (d = day now \/ d = day now + 1) as [E|E] by lia; subst d; lia.
+Qed.
+
+End DailyFixed.
+
 (* ---------- run-level statements of C15 ---------- *)
 Section Runs.
 Variable strf : N -> N -> comp.
-Variable rtm : N -> N.
+Variable rtm : N -> N -> N.
 Variable c : cfg.
 Hypothesis strf_nonempty : forall k t, strf k t <> [].
 Variable start : N.
@@ -336,7 +409,7 @@ Qed.
 Fixpoint quiet (s : rstate) (ops : list rop) : Prop :=
   match ops with
   | [] => True
-  | o :: r => match o with Write _ ts _ cnt => size_rotates c ts cnt s = false | _ => False end /\ quiet (step s o) r
+  | o :: r => match o with Write _ ts wr cnt => size_rotates c ts (acct c wr cnt) s = false | _ => False end /\ quiet (step s o) r
   end.
 Definition below (hi : N) (ops : list rop) : Prop :=
   Forall (fun o => match o with Write _ ts _ _ => ts <= hi | _ => False end) ops.
@@ -450,7 +523,7 @@ Lemma run_open_sorted : forall ops prev s, Inv c s -> open_sorted s -> ots s <= 
 Proof.
   induction ops as [|o ops IH]; intros prev s HI HS Hle HM; cbn [rot_run fold_left]; auto.
   destruct o as [id ts wr cnt | ? ? ?]; cbn [mono] in HM; [|destruct HM]. destruct HM as [M1 [_ M3]].
-  destruct (write_open_sorted id ts wr cnt s HI HS ltac:(lia)) as [A B].
+  destruct (write_open_sorted id ts wr (acct c wr cnt) s HI HS ltac:(lia)) as [A B].
   apply (IH ts); auto. cbn [rot_step]. apply write_log_inv; auto.
 Qed.
 
